@@ -332,6 +332,9 @@ Proof.
   - eapply dget_refines; eauto.
   - eapply dclose_refines; eauto.
   - eapply dwrite_refines; eauto.
+  - cbn [dstep] in Hs. destruct (slot_name (d_slots s) slot) eqn:Hsl; inv_pair Hs.
+    + exists m. split; [reflexivity | exact HD].
+    + exists m. split; [|exact HD]. unfold dmon_step. dsimp. rewrite (DI_open _ _ HD), Hsl. reflexivity.
 Qed.
 
 Lemma drun_refines : forall ops s m,
@@ -420,7 +423,7 @@ Qed.
 (* names_unique: counter names handed out in a history never repeat. *)
 Lemma dstep_counter_mono : forall s o, (d_counter s <= d_counter (fst (fst (dstep s o))))%N.
 Proof.
-  intros s o. destruct o as [k dig f|k f|k file]; cbn [dstep].
+  intros s o. destruct o as [k dig f|k f|k file|k]; cbn [dstep].
   - destruct (slot_name (d_slots s) k); [cbn; lia|].
     destruct (dir_name (d_counter s) dig) as [n cnt] eqn:Hdn.
     assert (Hcnt : (d_counter s <= cnt)%N) by (destruct dig; inv_pair Hdn; lia).
@@ -431,6 +434,7 @@ Proof.
       (destruct (gf_enter f); red_lets_goal; [destruct (rel_clean _ _ _)|]; cbn; exact Hcnt).
   - destruct (slot_name (d_slots s) k); [|cbn; lia]. destruct (rel_clean _ _ _). cbn. lia.
   - destruct (slot_name (d_slots s) k); [|cbn; lia]. destruct (add_file _ _ _). cbn. lia.
+  - destruct (slot_name (d_slots s) k); cbn; lia.
 Qed.
 
 Lemma dstep_counter_name : forall s k f s' n c,
@@ -458,7 +462,7 @@ Proof.
     assert (Hweak : forall x, In x (counter_names (dtrace s' tl)) ->
                     exists c0, (d_counter s < c0)%N /\ x = dec c0).
     { intros x Hx. destruct (Hall x Hx) as (c0 & Hlt & Heq). exists c0. split; [lia | exact Heq]. }
-    destruct o as [k [h|] f|k f|k file]; cbn [counter_names]; try (split; assumption).
+    destruct o as [k [h|] f|k f|k file|k]; cbn [counter_names]; try (split; assumption).
     destruct out; try (split; assumption).
     destruct (dstep_counter_name _ _ _ _ _ _ Hs) as (Hn & Hc).
     split.
